@@ -7,6 +7,7 @@ import (
 	"os"
 	"path/filepath"
 	"reflect"
+	"sort"
 	"strings"
 
 	intoto "github.com/in-toto/in-toto-golang/in_toto"
@@ -207,6 +208,7 @@ func runC01(c *core.Ctx) {
 			// ---- F: files with a second, differently spelled copy of a member ----
 			e.reuseWithParameters(&caseNo)
 			e.duplicateMembers(&caseNo)
+			e.duplicateInnerMembers(&caseNo)
 		}
 	}
 }
@@ -356,6 +358,125 @@ func (e *c01Env) duplicateMembers(caseNo *int) {
 				}
 				c.End(id)
 			}
+		}
+	}
+}
+
+// duplicateInnerMembers: forged copies of members INSIDE the signed part, written in front of the
+// genuine ones (a JSON text may repeat a member name; decoders disagree about what that means). The
+// forged copies admit a certificate functionary of an attacker's CA for the first step; the honest
+// link of that step is replaced by the attacker's. Acceptance means the forged content was enforced.
+func (e *c01Env) duplicateInnerMembers(caseNo *int) {
+	c := e.c
+	signer := e.keys[0]
+	path, _, err := e.chain.WriteLayout("dupinner.layout", signer)
+	if err != nil {
+		return
+	}
+	raw, _ := os.ReadFile(path)
+	var doc map[string]json.RawMessage
+	if json.Unmarshal(raw, &doc) != nil {
+		return
+	}
+	fast := gen.Fast(Pool(c))
+	attackerCA, err := gen.NewCA(gen.CertSpec{CN: "attacker-ca"}, nil)
+	if err != nil {
+		return
+	}
+	akey := fast[10]
+	certPEM, _, err := attackerCA.Issue(gen.CertSpec{CN: "attacker"}, akey.Public)
+	if err != nil {
+		return
+	}
+	afn := gen.Functionary{KeyPair: akey, CertPEM: certPEM}
+	// forged members
+	steps := append([]intoto.Step{}, e.chain.Layout.Steps...)
+	cc := gen.WildcardConstraint()
+	steps[0].CertificateConstraints = []intoto.CertificateConstraint{cc}
+	steps[0].PubKeys = []string{}
+	stepsJSON, _ := json.Marshal(steps)
+	casJSON, _ := json.Marshal(map[string]intoto.Key{attackerCA.Key.KeyID: attackerCA.Key})
+	forgedSets := map[string]string{
+		"rootcas+steps": fmt.Sprintf("%q:%s,%q:%s", "rootcas", casJSON, "steps", stepsJSON),
+		"steps+rootcas": fmt.Sprintf("%q:%s,%q:%s", "steps", stepsJSON, "rootcas", casJSON),
+	}
+	// a link directory in which the first step's evidence comes from the attacker only
+	evilDir := filepath.Join(e.chain.Root, "links-with-attacker-link")
+	os.RemoveAll(evilDir)
+	mkdirs(evilDir)
+	first := e.chain.Layout.Steps[0].Name
+	for _, n := range listDir(e.chain.LinkDir) {
+		if strings.HasPrefix(n, first+".") {
+			continue
+		}
+		if b, rerr := os.ReadFile(filepath.Join(e.chain.LinkDir, n)); rerr == nil {
+			os.WriteFile(filepath.Join(evilDir, n), b, 0644)
+		}
+	}
+	// same artifacts as the honest link reports (only the signer differs)
+	for _, n := range listDir(e.chain.LinkDir) {
+		if strings.HasPrefix(n, first+".") {
+			if md, lerr := intoto.LoadMetadata(filepath.Join(e.chain.LinkDir, n)); lerr == nil {
+				if l, ok := md.GetPayload().(intoto.Link); ok {
+					gen.WriteLink(evilDir, l, afn.SigningKey(), false)
+				}
+			}
+		}
+	}
+	member := "signed"
+	if e.dsse {
+		return // the envelope's signature covers the payload text itself
+	}
+	genuine := strings.TrimSpace(string(doc[member]))
+	if !strings.HasPrefix(genuine, "{") {
+		return
+	}
+	names := make([]string, 0, len(forgedSets))
+	for n := range forgedSets {
+		names = append(names, n)
+	}
+	sort.Strings(names)
+	for _, n := range names {
+		for _, front := range []bool{true, false} {
+			*caseNo++
+			id := fmt.Sprintf("duplicate-inner-members/%s/%s/forged-in-front=%v", e.tag(), n, front)
+			if !c.Mine(*caseNo) || !c.Want(id) {
+				continue
+			}
+			var signedText string
+			if front {
+				signedText = "{" + forgedSets[n] + "," + genuine[1:]
+			} else {
+				signedText = genuine[:len(genuine)-1] + "," + forgedSets[n] + "}"
+			}
+			file := fmt.Sprintf("{%q:%s,%q:%s}", "signed", signedText, "signatures", doc["signatures"])
+			ap := filepath.Join(e.chain.Root, "dupinner-attack.layout")
+			os.WriteFile(ap, []byte(file), 0644)
+			c.Begin(id)
+			md, err := intoto.LoadMetadata(ap)
+			if err != nil {
+				c.Obs("altered_refused_by_loader", 1)
+				c.Eval(1)
+				c.End(id)
+				continue
+			}
+			e.chain.ClearMarkers()
+			a := VerifyArgs{Layout: md, Keys: gen.KeyMap(signer), LinkDir: evilDir, Cwd: e.chain.FinalDir}
+			if e.runDir {
+				a.RunDir, a.Cwd = gen.RunDirName, e.chain.Root
+			}
+			obs := Verify(a)
+			c.Eval(1)
+			detail := map[string]any{"wrapper_entry": e.tag(), "forged_members": n, "forged_in_front": front, "error": errStr(obs.Err), "markers": e.chain.Markers()}
+			reportTrace(c, id, obs, detail)
+			c.Class("duplicate-inner-members", e.tag(), n, front)
+			c.Obs("not_authentic_cases", 1)
+			if obs.Accepted() {
+				c.Violation("forged copies of members inside the signed part (repeated member names) were enforced: the attacker's certificate functionary was admitted", id, detail)
+			} else {
+				c.Obs("not_authentic_rejected", 1)
+			}
+			c.End(id)
 		}
 	}
 }
@@ -833,7 +954,7 @@ func init() {
 	core.Register(&core.Property{
 		ID:    "C01",
 		Level: "exploration",
-		Rule: "for both wrappers x both entry points (the caller's step name alternating between empty and non-empty): (A) all 16x16 (signer subset, verifier subset) pairs over 4 keys of mixed type (Ed25519, ECDSA P-256, RSA-2048, ECDSA P-384) + nil map; (B) every single-point alteration (edit/replace/delete/insert/reorder at every JSON node; for every string also the alterations a normalising comparison would miss: LF->CRLF, LF->CR, leading/trailing blank, trailing newline, letter case) of the signed layout in the dumped file, reloaded with LoadMetadata, and in-memory alterations of Metablock.Signed; (C) alterations of the signature list (drop, swap ids, duplicate, one key's signature repeated in place of the other key's, replay of an older version, corrupt first/middle/last character, truncate, empty, case variants, copied signatures, several entries under one key id: corrupt + short junk, old-version + short junk, two corrupt, corrupt then valid) under 3 verifier sets; (D) alterations of the supplied key set (non-signer added, right id with foreign material, wrong type, empty, zero key, key objects whose certificate field belongs to another key than their public part); (E) one authentic metadata object verified four times with different parameter values (the inspection's marker name carries the value of the call); (F) files carrying a forged second copy of the signed part under another spelling of the member name (payload/Payload/PAYLOAD, signed/Signed/SIGNED, either order): the forged copy's inspection must never run. " +
+		Rule: "for both wrappers x both entry points (the caller's step name alternating between empty and non-empty): (A) all 16x16 (signer subset, verifier subset) pairs over 4 keys of mixed type (Ed25519, ECDSA P-256, RSA-2048, ECDSA P-384) + nil map; (B) every single-point alteration (edit/replace/delete/insert/reorder at every JSON node; for every string also the alterations a normalising comparison would miss: LF->CRLF, LF->CR, leading/trailing blank, trailing newline, letter case) of the signed layout in the dumped file, reloaded with LoadMetadata, and in-memory alterations of Metablock.Signed; (C) alterations of the signature list (drop, swap ids, duplicate, one key's signature repeated in place of the other key's, replay of an older version, corrupt first/middle/last character, truncate, empty, case variants, copied signatures, several entries under one key id: corrupt + short junk, old-version + short junk, two corrupt, corrupt then valid) under 3 verifier sets; (D) alterations of the supplied key set (non-signer added, right id with foreign material, wrong type, empty, zero key, key objects whose certificate field belongs to another key than their public part); (E) one authentic metadata object verified four times with different parameter values (the inspection's marker name carries the value of the call); (F) files carrying a forged second copy of the signed part under another spelling of the member name (payload/Payload/PAYLOAD, signed/Signed/SIGNED, either order): the forged copy's inspection must never run; (G) legacy files whose signed part repeats the members rootcas and steps - forged copies in front of / behind the genuine ones that would admit an attacker's certificate functionary, whose link replaces the honest one. " +
 			"Oracle = ground truth by construction (which key signed which content version) + marker files of the inspection command + hook-event trace automaton. non-trivial = the call reached verify_entry; distinct = (wrapper, entry point, case family, |S|, |V|, relation / alteration kind + JSON path class)",
 		Assumptions: []string{
 			"acceptance of authentic controls is required only as an observation floor (the property is an 'only if'); a rejected control is counted as inconclusive",
